@@ -136,8 +136,21 @@ static void part_c(Ctx& ctx, int which, int j) {
       if (!(err <= 0.5Q)) { ctx.violation(id, sfmt("x=%a d=2^%d: returned %lld, x/d=%.20g (error %.3g > 1/2)", x.as<double>()[i], j, (long long)r.as<int64_t>()[i], (double)q, (double)err)); base = Y.size(); break; }
     }
   }
+  // every probe once more on its own: one probe per call (its position moves through the vector), all other slots hold a
+  // small quotient - a kernel that chooses its path per group of slots must be right when the group mixes magnitudes
+  for (size_t t = 0; t < Y.size(); ++t) {
+    for (uint64_t i = 0; i < 2 * m; ++i) x.as<double>()[i] = 0.25 * d;
+    const uint64_t pos = t % (2 * m);
+    x.as<double>()[pos] = Y[t] * d;
+    f(&pc, r.as<int64_t>(), x.p);
+    for (uint64_t i = 0; i < 2 * m; ++i) {
+      q128 q = (q128)x.as<double>()[i] / (q128)d;
+      q128 err = fabsq((q128)r.as<int64_t>()[i] - q);
+      if (!(err <= 0.5Q)) { ctx.violation(id, sfmt("isolated probe at slot %llu: x=%a d=2^%d: slot %llu returned %lld, x/d=%.20g (error %.3g > 1/2)", (unsigned long long)pos, x.as<double>()[pos], j, (unsigned long long)i, (long long)r.as<int64_t>()[i], (double)q, (double)err)); t = Y.size(); break; }
+    }
+  }
   if (!x.guards_ok() || !r.guards_ok()) ctx.violation(id, "write outside a declared extent");
-  ctx.metric_add(2, Y.size()); ctx.metric_add(3, ties);
+  ctx.metric_add(2, 2 * Y.size()); ctx.metric_add(3, ties);
   ctx.end_case(true);
 }
 
